@@ -39,6 +39,7 @@ type Program struct {
 	reachMem map[string]map[*ssa.Function]bool
 	callSites   map[*ssa.Function][]*ssa.Call // direct call sites by callee (directCallSites)
 	usedAsValue map[*ssa.Function]bool
+	constMaps   map[string]map[string]aval // allConstMaps
 	LoadS    float64
 }
 
